@@ -483,6 +483,19 @@ pub fn library_diff_lines(arch: &Path, src: &Path, include_unchanged: bool, excl
     pairs.into_iter().map(|(p, k)| format!("{} {p}", match k { "unchanged" => '.', "added" => '+', "deleted" => '-', "changed" => '*', _ => '?' })).collect()
 }
 
+/// The same against a named version (an interrupted one, say).
+pub fn library_diff_lines_of_band(arch: &Path, band: u32, src: &Path, include_unchanged: bool, exclude: &[String]) -> Vec<String> {
+    let archive = block_on(async { Archive::open(conserve::transport::Transport::local(arch)).await.unwrap() });
+    let pairs: Vec<(String, &'static str)> = block_on(async {
+        let st = archive.open_stored_tree(BandSelectionPolicy::Specified(conserve::BandId::from(band))).await.unwrap();
+        let lt = SourceTree::open(src).unwrap();
+        let options = DiffOptions { include_unchanged, exclude: Exclude::from_strings(exclude).unwrap() };
+        let changes = conserve::diff(&st, &lt, options, TestMonitor::arc()).await.unwrap().collect().await;
+        changes.iter().map(|ec| (ec.apath.to_string(), class_of(ec))).collect()
+    });
+    pairs.into_iter().map(|(p, k)| format!("{} {p}", match k { "unchanged" => '.', "added" => '+', "deleted" => '-', "changed" => '*', _ => '?' })).collect()
+}
+
 fn parse_model_lines(lines: &[String]) -> Vec<(String, String)> {
     lines
         .iter()
